@@ -27,3 +27,7 @@ CLAIMS["C30"] = dict(level="model_checking", engine="sched",
     technique="exhaustive schedule enumeration (controlled scheduler, preemption-bounded / happens-before pruned) of concurrent draws on one PRNG + exhaustive enumeration of seeds/ranges against an independent SHAKE256; separate free-running -race pass",
     text="256 seeds x salts are compared with an independent SHAKE256(seed) under different chunkings; helper ranges are enumerated over boundary-complete argument grids; every schedule of 3 threads x 2 draws over a program menu is enumerated on one prng and the chunks handed out must partition the sequential stream; the same bodies run free under the race detector.",
     note="Scheduling points are the prng mutex operations; accesses that bypass the mutex are only visible to the (sampled) -race pass.")
+CLAIMS["C27"] = dict(level="exploration",
+    technique="exhaustive enumeration of all 65536 suite ids x versions x secret patterns (before and after EnableWeakCiphers) against an independent support table, with bidirectional payload exchange on every supported pair",
+    text="Every suite id at TLS 1.0/1.1/1.2 with three secret/random patterns is forged as client and server: ids valid for the version (per a table built from the standard library plus utls's extra code points) must give two non-nil connections that exchange 1/100/16384/20000-byte payloads both ways; unknown ids must give nil.",
+    note="Reference support table derived from stdlib crypto/tls; a suite at a version it is not valid for is not judged.")
